@@ -1,27 +1,48 @@
 #!/bin/bash
-# tools/seed_eval.sh <seed dir, e.g. /tmp/seed_C03> <seed id, e.g. C03-a> [checks to run, default: the seed's property]
-# Confirms a seeded change (patch applies to HEAD, demo passes without / fails with it, test suite still 247 passed),
-# stores it as /verif/seeded/<id>/ and runs the named checks against it.
+# tools/seed_eval.sh <seed dir, e.g. /tmp/seedout_C03/a> <seed id, e.g. C03-a> [checks to run, default: the seed's property]
+# Confirms a seeded change (patch applies to HEAD, demo passes without / fails with it, test suite unchanged),
+# stores it as /verif/seeded/<id>/ and runs the named checks (quick tier) against it in a scratch worktree.
+# SEED_SUITE=0 skips the suite run (e.g. when only re-running checks); results go to seeded/<id>/result.json.
 set -u
 VROOT="$(cd "$(dirname "$0")/.." && pwd)"
 SD="$1"; ID="$2"; shift 2
 DEST="$VROOT"/seeded/$ID
 mkdir -p "$DEST"
-cp "$SD/SEED/patch.diff" "$SD/SEED/demo.py" "$SD/SEED/meta.json" "$DEST/" || exit 3
+if [ -d "$SD/SEED" ]; then cp "$SD/SEED/patch.diff" "$SD/SEED/demo.py" "$SD/SEED/meta.json" "$DEST/" || exit 3; fi
 PROP=$(python3 -c "import json;print(json.load(open('$DEST/meta.json'))['property'])")
 CHECKS="${*:-$PROP}"
 WT=$(mktemp -d /tmp/sv_XXXXXX); rmdir "$WT"
 git -C /repo worktree add -q "$WT" HEAD || exit 3
 export VERIF_LEAN_DIR="${WT}_lean"; rsync -a "$VROOT"/lean/ "$VERIF_LEAN_DIR"/
-R="$DEST/confirm.log"; : > "$R"
-( cd "$WT" && PYTHONPATH="$WT/src" timeout 600 /venv/bin/python "$DEST/demo.py" ) >> "$R" 2>&1; echo "demo on unchanged tree: exit $?" | tee -a "$R"
-if ! git -C "$WT" apply "$DEST/patch.diff"; then echo "PATCH DOES NOT APPLY" | tee -a "$R"; git -C /repo worktree remove --force "$WT"; exit 3; fi
-( cd "$WT" && PYTHONPATH="$WT/src" timeout 600 /venv/bin/python "$DEST/demo.py" ) >> "$R" 2>&1; echo "demo on changed tree: exit $?" | tee -a "$R"
+R="$DEST/confirm.log"; [ "${SEED_SUITE:-1}" = "1" ] && : > "$R"
+( cd "$WT" && PYTHONPATH="$WT/src" timeout 900 /venv/bin/python "$DEST/demo.py" ) >> "$R" 2>&1; D0=$?; echo "demo on unchanged tree: exit $D0" | tee -a "$R"
+if ! git -C "$WT" apply "$DEST/patch.diff"; then echo "PATCH DOES NOT APPLY" | tee -a "$R"; git -C /repo worktree remove --force "$WT"; rm -rf "$VERIF_LEAN_DIR"; exit 3; fi
+( cd "$WT" && PYTHONPATH="$WT/src" timeout 900 /venv/bin/python "$DEST/demo.py" ) >> "$R" 2>&1; D1=$?; echo "demo on changed tree: exit $D1" | tee -a "$R"
+SUITE="skipped"
 if [ "${SEED_SUITE:-1}" = "1" ]; then
-  ( cd "$WT" && PYTHONPATH="$WT/src" /venv/bin/python -m pytest -q -p no:cacheprovider --timeout=900 test 2>&1 | tail -1 ) | tee -a "$R"
+  L=$(mktemp /tmp/svsuite_XXXXXX.log)
+  TAIL=$("$VROOT"/tools/run_suite.sh "$WT" "$L")
+  if cmp -s "$L.failed" /tmp/suite_base.log.failed 2>/dev/null || { [ ! -f /tmp/suite_base.log.failed ] && echo "$TAIL" | grep -q "59 failed, 247 passed"; }; then SUITE="same"; else SUITE="DIFFERENT"; fi
+  echo "suite on changed tree: $TAIL :: failed set vs baseline: $SUITE" | tee -a "$R"
+  [ "$SUITE" = "DIFFERENT" ] && diff "$L.failed" /tmp/suite_base.log.failed | head -10 | tee -a "$R"
+  rm -f "$L" "$L.failed"
 fi
+RES=""
 for C in $CHECKS; do
   VERIF_REPO="$WT" "$VROOT"/check "$C" quick > "$DEST/check_$C.log" 2>&1; rc=$?
   echo "check $C on changed tree: exit $rc :: $(grep -v '^KNOWN-FINDING' "$DEST/check_$C.log" | grep -E 'VIOLATION|quick:' | tr '\n' ' ' | cut -c1-300)" | tee -a "$R"
+  NF=$(grep -c 'no-failing-input-found' "$DEST/check_$C.log")
+  RES="$RES \"$C\": {\"exit\": $rc, \"no_failing_input\": $NF},"
 done
 git -C /repo worktree remove --force "$WT"; rm -rf "$VERIF_LEAN_DIR"
+python3 - "$DEST" "$D0" "$D1" "$SUITE" "{${RES%,}}" <<'PY'
+import json, sys, os
+dest, d0, d1, suite, res = sys.argv[1:6]
+p = os.path.join(dest, 'result.json')
+old = json.load(open(p)) if os.path.exists(p) else {}
+old.update({'demo_unchanged_exit': int(d0), 'demo_changed_exit': int(d1)})
+if suite != 'skipped':
+    old['suite'] = suite
+old.setdefault('checks', {}).update(json.loads(res))
+json.dump(old, open(p, 'w'), indent=1)
+PY
